@@ -78,8 +78,8 @@ Theorem C52_vary_origin_preflight : forall (rs : rules) (q : req) (h' : hdrs),
 Proof. exact vary_origin_preflight. Qed.
 Print Assumptions C52_vary_origin_preflight.
 
-(* The executable predicate that the harness evaluates on the implementation's observations holds of the model on
-   every well-formed input (no known-finding class is excluded: kf_C52 = 0 everywhere). *)
+(* The executable predicate that the harness evaluates on the implementation's observations (per step, against the
+   configuration of the last successful reload) holds of the model on every well-formed history (no known-finding class is excluded: kf_C52 = 0 everywhere). *)
 Theorem C52_prop_of_model : forall i, wf_C52 i = true -> kf_C52 i = 0 -> prop_C52 i (run_C52 i) = true.
 Proof. intros i H _. exact (prop_C52_of_model i H). Qed.
 Print Assumptions C52_prop_of_model.
@@ -101,8 +101,35 @@ Example C52_ex_preflight :
   Some (mkHdrs [bs "Origin"] [bs "http://a.example"] [] [bs "PUT,GET"] [] [bs "600"] []).
 Proof. exact ex_preflight. Qed.
 
-(* A generated corpus case (prevary-two) satisfies the well-formedness predicate of C52_prop_of_model. *)
-Example C52_wf_example : wf_C52 w_corpus = true /\ kf_C52 w_corpus = 0 /\ prop_C52 w_corpus (run_C52 w_corpus) = true
-  /\ run_C52 w_corpus = VL [VZ 0; VL [vLB [bs "Accept-Encoding"; bs "Cookie"; bs "Origin"]; vLB [bs "http://a"];
-                                     vLB [bs "true"]; vLB []; vLB []; vLB []; vLB []]].
+(* Reload (loadRuleData -> CorsRuleFileLoad -> CorsRuleTable.Update), for every history.  A successful reload REPLACES
+   the rule table: the rest of the history behaves exactly as on a module that only ever loaded the new configuration,
+   whatever was loaded before; a rejected rule file changes nothing. *)
+Theorem C52_reload_replaces : forall (t c : conf) (ops : list cop),
+  conf_ok c = true -> run_ops t (OLoad c :: ops) = VL [VZ 1] :: run_ops c ops.
+Proof. exact reload_replaces. Qed.
+Print Assumptions C52_reload_replaces.
+Theorem C52_failed_reload_keeps : forall (t c : conf) (ops : list cop),
+  conf_ok c = false -> run_ops t (OLoad c :: ops) = VErr 1 :: run_ops t ops.
+Proof. exact failed_reload_keeps. Qed.
+Print Assumptions C52_failed_reload_keeps.
+(* A product that the configuration in force does not list is granted nothing by either callback: the response
+   header is returned untouched and no preflight response is made - also when an earlier configuration had rules for it. *)
+Theorem C52_dropped_product_denied : forall (t c : conf) (p : bytes) (q : req) (h : hdrs) (ops : list cop),
+  conf_ok c = true -> lookup p c = None ->
+  run_ops t (OLoad c :: OReq p q h 0 :: ops) = VL [VZ 1] :: VL [VZ 0; enc_hdrs h] :: run_ops c ops
+  /\ run_ops t (OLoad c :: OReq p q h 1 :: ops) = VL [VZ 1] :: VL [VZ 0; VL []] :: run_ops c ops.
+Proof. exact dropped_product_denied. Qed.
+Print Assumptions C52_dropped_product_denied.
+
+(* A corpus case satisfies the well-formedness predicate of C52_prop_of_model; the reload witness history
+   (pa granted; reload without pa; pa untouched; pb granted) runs as described. *)
+Example C52_wf_example : wf_C52 w_corpus = true /\ kf_C52 w_corpus = 0 /\ prop_C52 w_corpus (run_C52 w_corpus) = true.
 Proof. exact wf_corpus_example. Qed.
+Example C52_reload_example :
+  wf_C52 w_reload = true /\
+  match run_C52 w_reload with
+  | VL [l1; VL [_; VL (_ :: acao1 :: _)]; l2; VL [_; VL (_ :: acao2 :: _)]; VL [_; VL (_ :: acao3 :: _)]] =>
+    l1 = VL [VZ 1] /\ l2 = VL [VZ 1] /\ acao1 <> VL [] /\ acao2 = VL [] /\ acao3 = acao1
+  | _ => False
+  end.
+Proof. exact reload_example. Qed.
